@@ -38,18 +38,23 @@ Guard(kind) ==
      [] kind = "open"    -> More /\ depth < 2
      [] kind = "close"   -> depth > 0
      [] kind = "finish"  -> depth = 0 /\ Len(prog) >= 4
-OkKinds == SelectSeq(Kinds, Guard)
+\* a second mix for the generator: owners whose fields get entangled with each other and with outside qubits and are then
+\* released (destroy / scope exit) while unmeasured - the implicit resets of a release meet correlated targets
+RelKinds == <<"new","new","declq","gate","cx","cx","cx","cx","cx","destroy","destroy","open","close","close","measure","finish">>
+RelGates == {<<"h",0>>, <<"h",0>>, <<"x",0>>, <<"ry",1>>}
+OkKindsOf(K) == SelectSeq(K, Guard)
+OkKinds == OkKindsOf(Kinds)
 ActiveRefs == {r \in ValidRefs : ~evMeas[IdxOf(r)]}
 \* mostly operate on unmeasured qubits (so behaviours get long), sometimes on any (refusals)
 Pool(coin) == IF coin = 1 \/ ActiveRefs = {} THEN ValidRefs ELSE ActiveRefs
-GenNext ==
+GenNextOf(K, GS) ==
    /\ Running
-   /\ \E ki \in {Pick(1..Len(OkKinds))}, rs \in {Pick(D2)}, d \in {Pick(D1)}, t \in {Pick(BOOLEAN)}, p \in {Pick(Paths)} :
-      LET kind == OkKinds[ki] IN
+   /\ \E ki \in {Pick(1..Len(OkKindsOf(K)))}, rs \in {Pick(D2)}, d \in {Pick(D1)}, t \in {Pick(BOOLEAN)}, p \in {Pick(Paths)} :
+      LET kind == OkKindsOf(K)[ki] IN
       CASE kind = "declq"   -> DeclQ(t, d)
         [] kind = "declarr" -> DeclArr(t, rs)
         [] kind = "new"     -> \E c \in {Pick(FitClasses)} : NewObj(c, rs)
-        [] kind = "gate"    -> \E g \in {Pick(GateSet)}, coin \in {Pick(1..8)} : \E r \in {Pick(Pool(coin))}, mm \in {Pick(Turns)} : Gate(g[1], g[2], IF g[1] \in Rots THEN mm ELSE 0, r, p)
+        [] kind = "gate"    -> \E g \in {Pick(GS)}, coin \in {Pick(1..8)} : \E r \in {Pick(Pool(coin))}, mm \in {Pick(Turns)} : Gate(g[1], g[2], IF g[1] \in Rots THEN mm ELSE 0, r, p)
         [] kind = "cx"      -> \E coin \in {Pick(1..8)} : \E c \in {Pick(Pool(coin))} :
                                  LET others == {x \in Pool(coin) : IdxOf(x) # IdxOf(c)}
                                      \* one time in sixteen (or when nothing else exists) the same qubit is named twice
@@ -62,7 +67,9 @@ GenNext ==
         [] kind = "open"    -> OpenBlock
         [] kind = "close"   -> CloseBlock(rs)
         [] kind = "finish"  -> Finish(rs)
+GenNext == GenNextOf(Kinds, GateSet)
 GenSpec == Init /\ [][GenNext]_qv
+RelSpec == Init /\ [][GenNextOf(RelKinds, RelGates)]_qv
 
 (* Exhaustive small-scope exploration: reduced parameter sets (the access path and the concrete gate do
    not influence the bookkeeping), history variables hidden by a VIEW. *)
